@@ -27,16 +27,16 @@ func chunkPayload(id, n int) []byte {
 }
 
 type chunkScenario struct {
-	name     string
-	M        int
-	n        uint8
-	lens     []int
-	latency  time.Duration
-	decide   vnet.Decider
-	sendTO   time.Duration // send deadline for the first attempt of each message
-	recvTO   time.Duration // receive deadline for the first attempts of each Recv
-	recvTries int          // how many attempts use the deadline (default 1)
-	horizon  time.Duration
+	name      string
+	M         int
+	n         uint8
+	lens      []int
+	latency   time.Duration
+	decide    vnet.Decider
+	sendTO    time.Duration // send deadline for the first attempt of each message
+	recvTO    time.Duration // receive deadline for the first attempts of each Recv
+	recvTries int           // how many attempts use the deadline (default 1)
+	horizon   time.Duration
 }
 
 // TestC14Chunk: every payload length against every chunk size (small ones
